@@ -155,7 +155,7 @@ func (V *Verifier) verifyFunctions(fns []*ssa.Function, lemmas []*Lemma, opt sol
 	for _, fn := range fns {
 		key := funcKey(fn)
 		fc := V.C.Funcs[key]
-		if fc == nil && !V.Sweep {
+		if fc == nil && !V.Sweep && !V.SweepSet[key] {
 			res.Structure = append(res.Structure, fmt.Sprintf("structure:%s: no contract found for function under verification", key))
 			continue
 		}
@@ -229,9 +229,4 @@ func (V *Verifier) verifyFunctions(fns []*ssa.Function, lemmas []*Lemma, opt sol
 		}
 	}
 	return res
-}
-
-func cmdCheck(args []string) {
-	fmt.Fprintln(os.Stderr, "check: not implemented yet")
-	os.Exit(2)
 }
